@@ -388,4 +388,51 @@ def toGrammar (g : ExtGrammar) : CFG.Grammar :=
   { nTerms := g.cx.nT, nSyms := g.cx.nT + (altsOf g).1.length,
     rules := (plainRules g).toArray, inputs := #[] }
 
+/-! ### Well-formedness (decidable; what `compiler/syntax.go` guarantees for every loaded grammar) -/
+
+def isRef : Expr → Bool
+  | .ref _ => true
+  | _ => false
+
+/-- `convertSeparator`: no separator, one terminal, or a sequence of terminals -/
+def simpleSep : Expr → Bool
+  | .empty => true
+  | .ref _ => true
+  | .seq es => es.all isRef
+  | _ => false
+
+mutual
+/-- references and set indices in range, separators simple, no nested `Prec` -/
+def wfExpr (nSyms : Nat) (nSets : Nat) : Expr → Bool
+  | .empty => true
+  | .ref s => s < nSyms
+  | .opt e => wfExpr nSyms nSets e
+  | .seq es => wfList nSyms nSets es
+  | .choice es => wfList nSyms nSets es
+  | .list _ _ e s => wfExpr nSyms nSets e && (simpleSep s && wfExpr nSyms nSets s)
+  | .set i => i < nSets
+  | .lookahead _ => true
+  | .arrow _ e => wfExpr nSyms nSets e
+  | .assign _ e => wfExpr nSyms nSets e
+  | .append _ e => wfExpr nSyms nSets e
+  | .prec _ _ => false
+  | .command _ => true
+  | .marker _ => true
+def wfList (nSyms : Nat) (nSets : Nat) : List Expr → Bool
+  | [] => true
+  | e :: es => wfExpr nSyms nSets e && wfList nSyms nSets es
+end
+
+/-- a rule: `Prec` may wrap the whole rule (`convertRules`) -/
+def wfRule (nSyms nSets : Nat) : Expr → Bool
+  | .prec _ e => wfExpr nSyms nSets e
+  | e => wfExpr nSyms nSets e
+
+def wfTop (nSyms nSets : Nat) : Expr → Bool
+  | .choice subs => subs.all (wfRule nSyms nSets)
+  | e => wfRule nSyms nSets e
+
+def wfGrammar (g : ExtGrammar) : Bool :=
+  g.user.length == g.cx.nU && g.user.all (wfTop g.cx.base g.cx.setTerms.length)
+
 end TmVerif.Expand
